@@ -68,7 +68,7 @@ theorem ev_fetchErr (k : Nat) (ek : ErrKind) (tag : Nat) {s : St} (hs : Top cfg 
   have ha := sf_active hs.1 k .fetch c hreq
   have hst := incStep_fetchErr cfg.reset.isSome (runR (C02.incStep cfg.reset.isSome) {} s.out) k ek tag
   unfold handleFetchError
-  refine fetchErrorTail_good cfg _ (by leaf hx) (fun hP ho hr => ?_)
+  refine fetchErrorTail_good cfg _ (by intro h; cases h) (by leaf hx) (fun hP ho hr => ?_)
   have hek : ek = .outOfRange := by cases ek <;> simp [Fail.isOutOfRange] at ho ⊢
   subst hek
   simp [Armed, C02.incStep, hr]
@@ -90,7 +90,7 @@ theorem ev_offsetErr (k : Nat) (ek : ErrKind) (tag : Nat) {s : St} (hs : Top cfg
   have hlc := hs.2.2
   have ha := sf_active hs.1 k .offsets c hreq
   unfold handleOffsetError
-  exact (offsetErrorTail_pres cfg _).step (by leaf hx)
+  exact (offsetErrorTail_pres cfg _ (by intro h; cases h)).step (by leaf hx)
 
 section OffsetFetchOk
 variable (k : Nat) (off : Int) {s : St} (hs : Top cfg s) (c : Bool) (hreq : s.requestD = .pending k .offsetFetch c)
@@ -190,14 +190,14 @@ theorem ev_offsetFetchErr (k : Nat) (ek : ErrKind) (tag : Nat) {s : St} (hs : To
   have hlc := hs.2.2
   have ha := sf_active hs.1 k .offsetFetch c hreq
   unfold handleOffsetError
-  exact (offsetErrorTail_pres cfg _).step (by leaf hx)
+  exact (offsetErrorTail_pres cfg _ (by intro h; cases h)).step (by leaf hx)
 
 theorem ev_commitOk (k : Nat) {s : St} (hs : Top cfg s) (r : CommitReq) (hr : s.commitReq = some r) (hk : (r.k == k) = true) :
     Good cfg s (deliver cfg (opsN cfg cfg.depth) (.ok (some r.off))
       { s with out := .ev (.commitOk k) :: s.out, commitReq := none, lastCommitted := some r.off }) := by
   have hx := Good.refl hs.1
   have hlc := hs.2.2
-  exact (deliver_pres (opsN_pres cfg _) _).step (by leaf hx)
+  exact (deliver_pres (opsN_pres cfg _) _ (nts_ok _)).step (by leaf hx)
 
 theorem ev_commitErr (k : Nat) (ek : ErrKind) (tag : Nat) {s : St} (hs : Top cfg s) (r : CommitReq)
     (hr : s.commitReq = some r) (hk : (r.k == k) = true) :
@@ -205,12 +205,12 @@ theorem ev_commitErr (k : Nat) (ek : ErrKind) (tag : Nat) {s : St} (hs : Top cfg
       { s with out := .ev (.commitErr k ek tag) :: s.out, commitReq := none }) := by
   have hx := Good.refl hs.1
   have hlc := hs.2.2
-  exact (handleCommitError_pres (opsN_pres cfg _) _ _ _).step (by leaf hx)
+  exact (handleCommitError_pres (opsN_pres cfg _) _ (by intro h; cases h) _ _).step (by leaf hx)
 
 theorem ev_procOk {s : St} (hs : Top cfg s) (g : Gen) (hp : s.proc = some g) :
     Good cfg s (procResult cfg (opsN cfg cfg.depth) g none { s with out := .ev .procOk :: s.out }) :=
   procResult_good (opsN_pres cfg _) (opsN_calm cfg _) g none _ hs.1 hp
-    (Or.inl (hs.1.g1.procBlock (by rw [hp]; rfl))) (Or.inr hs.2.2) (Or.inl ⟨rfl, rfl⟩)
+    (Or.inl (hs.1.g1.procBlock (by rw [hp]; rfl))) (Or.inr hs.2.2) (Or.inl ⟨rfl, rfl⟩) (fun _ h => by cases h)
 
 theorem ev_procErr (ek : ErrKind) (tag : Nat) {s : St} (hs : Top cfg s) (g : Gen) (hp : s.proc = some g) :
     Good cfg s (procResult cfg (opsN cfg cfg.depth) g (some (.ext ek tag)) { s with out := .ev (.procErr ek tag) :: s.out }) := by
@@ -219,6 +219,7 @@ theorem ev_procErr (ek : ErrKind) (tag : Nat) {s : St} (hs : Top cfg s) (g : Gen
       ((some (Fail.ext ek tag) : Option Fail).isSome ∧ ((∃ k t, Item.ev (Ev.procErr ek tag) = .ev (.procErr k t)) ∨ Item.ev (Ev.procErr ek tag) = .ob .procCancel)) :=
     Or.inr ⟨rfl, Or.inl ⟨ek, tag, rfl⟩⟩
   exact procResult_good (opsN_pres cfg _) (opsN_calm cfg _) g (some (.ext ek tag)) (.ev (.procErr ek tag)) hs.1 hp (Or.inl hb) (Or.inr hs.2.2) hxx
+    (fun f h => by cases h; intro h'; cases h')
 
 theorem ev_retryFire {s : St} (hs : Top cfg s) (due : Rat) (hdue : s.retryCall = .pending due) :
     Good cfg s (doFetch cfg { s with out := .ev .retryFire :: s.out, retryCall := .dead }) := by
@@ -418,9 +419,10 @@ theorem step_top (cfg : Cfg) (e : Ev) {s : St} (hs : Top' cfg s) (he : EnvHyp.sa
         exact ⟨h2.1, h2.2.trans hs.2.1, Or.inr h3⟩
 
 theorem init_top (cfg : Cfg) (script : List PEntry) : Top' cfg (init cfg script) := by
-  refine ⟨⟨?_, ?_, ?_, ?_, ?_, ?_, fun _ => ?_⟩, rfl, Or.inr rfl⟩
+  refine ⟨⟨?_, ?_, ?_, ?_, ?_, ?_, ?_, fun _ => ?_⟩, rfl, Or.inr rfl⟩
   · constructor <;> simp [init, oifOf]
   · constructor <;> simp [init, activeReq, retryPending]
+  · constructor <;> simp [init]
   · constructor <;> simp [init]
   · constructor <;> simp [init]
   · constructor <;> simp [init]
